@@ -161,6 +161,34 @@ def _shard(args):
     return out
 
 
+def _coverage_guided(pid, seed, cfg):
+    """atheris drives the property's Hypothesis strategy through fuzz_one_input (pbt/fuzz_hyp.py)."""
+    import shutil
+    import subprocess
+    import tempfile
+    try:
+        import atheris  # noqa: F401
+    except ImportError:
+        return {"summary": {"engine": "atheris+hypothesis", "skipped": "atheris not importable"}, "failures": []}
+    work = tempfile.mkdtemp(prefix=f"{pid.lower()}cg-")
+    try:
+        os.makedirs(os.path.join(work, "corpus"))
+        res = os.path.join(work, "result.json")
+        cmd = [sys.executable, "-W", "ignore", "-m", "pbt.fuzz_hyp", pid, res, os.path.join(work, "corpus"),
+               f"-runs={cfg.get('runs', 60000)}", f"-seed={seed + 1}",
+               f"-max_total_time={cfg.get('seconds', 120)}", "-max_len=4096", "-print_final_stats=0"]
+        p = subprocess.run(cmd, capture_output=True, text=True, timeout=cfg.get("seconds", 120) + 240, cwd=HERE)
+        data = json.load(open(res)) if os.path.exists(res) else {"stats": {}, "violation": None}
+        summary = {"engine": "atheris+hypothesis (fuzz_one_input)", "exit": p.returncode, **data.get("stats", {})}
+        failures = []
+        v = data.get("violation")
+        if v:
+            failures.append((codec.dec(v["case"]), v["key"], v["detail"]))
+        return {"summary": summary, "failures": failures}
+    finally:
+        shutil.rmtree(work, ignore_errors=True)
+
+
 # ------------------------------------------------------------------------------------------
 def main(argv=None):
     ap = argparse.ArgumentParser()
@@ -311,6 +339,18 @@ def _main(mod, pid, a, seed, t0):
                 ctx.excluded[key] += 1
             else:
                 violations.append((case, key, detail, "extra engine"))
+
+    # ---- F. coverage-guided campaign over the same strategy (thorough tier, selected properties) ---------
+    cg = getattr(mod, "COVERAGE_GUIDED", None)
+    if cg and a.tier == "thorough" and not violations:
+        res = _coverage_guided(pid, seed, cg)
+        extra = dict(extra or {}, coverage_guided=res["summary"])
+        ctx.evaluations += res["summary"].get("valid", 0)
+        for case, key, detail in res["failures"]:
+            if key in open_f:
+                ctx.excluded[key] += 1
+            else:
+                violations.append((case, key, detail, "coverage-guided (atheris over the Hypothesis strategy)"))
 
     # ---- coverage expectations ----------------------------------------------------------------------------
     if hasattr(mod, "require") and not violations and not timed_out:
